@@ -19,10 +19,17 @@ type c15Deleter struct {
 	inner  cache.Deleter
 	broken map[string]bool // keys for which this cache is broken
 	calls  *[]string       // names in call order
+	mid    *func()
 }
 
 func (d *c15Deleter) Delete(ctx context.Context, key []byte) error {
 	*d.calls = append(*d.calls, d.name)
+
+	if d.mid != nil && *d.mid != nil {
+		f := *d.mid
+		*d.mid = nil
+		f() // somebody else labels keys while the invalidation is between its cut and its deletes
+	}
 
 	if d.broken[string(key)] {
 		return errOutage
@@ -46,6 +53,8 @@ type c15Action struct {
 	Caches  map[uint64][]string `json:"cachesAfter"`
 	Index   map[string]map[string][]string `json:"indexAfter"`
 	Order   []string          `json:"nameOrder"`
+	Mid     []string          `json:"addLabelsDuring,omitempty"`
+	midCoq  []string
 	Panic   string            `json:"panic,omitempty"`
 }
 
@@ -111,6 +120,7 @@ func TestC15(t *testing.T) {
 		"holding random subsets of the keys; 3..14 AddLabels calls with repeats and with the key buffer overwritten afterwards; then 2..5 " +
 		"InvalidateByLabels calls with 1..4 label arguments in random order (repeated arguments included), each with an outage set of " +
 		"(cache, key) pairs (empty, one pair, or a whole cache) followed by a retry after recovery; recover() around every call; " +
+		"in single-name cases 1/3 of the invalidations have AddLabels calls by 'somebody else' landing between the cut and the first delete; " +
 		"non-trivial = an invalidation that failed and a later one that removed entries"
 
 	n := e.Pick(220, 3000)
@@ -142,6 +152,7 @@ func TestC15(t *testing.T) {
 				backs []Backend
 				dels  []*c15Deleter
 				calls []string
+				mid   func()
 			)
 
 			defer func() {
@@ -171,7 +182,7 @@ func TestC15(t *testing.T) {
 						}
 					}
 
-					d := &c15Deleter{id: id, name: name, inner: b.Deleter(), broken: map[string]bool{}, calls: &calls}
+					d := &c15Deleter{id: id, name: name, inner: b.Deleter(), broken: map[string]bool{}, calls: &calls, mid: &mid}
 					dels = append(dels, d)
 					delOf[name] = append(delOf[name], id)
 
@@ -233,6 +244,39 @@ func TestC15(t *testing.T) {
 
 				calls = nil
 				act := c15Action{Broken: broken}
+				mid = nil
+
+				if len(names) == 1 && e.Rng.Intn(3) == 0 {
+					type add struct {
+						k  string
+						ls []string
+					}
+
+					var planned []add
+
+					for x := 1 + e.Rng.Intn(3); x > 0; x-- {
+						a := add{k: keys[e.Rng.Intn(nk)]}
+						for y := 1 + e.Rng.Intn(2); y > 0; y-- {
+							a.ls = append(a.ls, string(rune('A'+e.Rng.Intn(nl))))
+						}
+
+						planned = append(planned, a)
+					}
+
+					mid = func() {
+						for _, a := range planned {
+							ix.AddLabels("default", []byte(a.k), a.ls...)
+
+							lns := make([]uint64, len(a.ls))
+							for j, l := range a.ls {
+								lns[j] = labelN(l)
+							}
+
+							act.Mid = append(act.Mid, fmt.Sprintf("%s:%v", a.k, a.ls))
+							act.midCoq = append(act.midCoq, Tuple(Key([]byte(a.k)), NList(lns)))
+						}
+					}
+				}
 
 				for _, l := range ls {
 					act.Labels = append(act.Labels, labelN(l))
@@ -345,7 +389,7 @@ func TestC15(t *testing.T) {
 			}
 
 			res := map[string]string{"ok": "IOk", "err": "IErr", "panic": "IPanic", "other": "IOther"}[a.Result]
-			actItems = append(actItems, fmt.Sprintf("(mkAct %s %s %s %s %s %s %s)", NList(a.Labels), List(br), NList(ord), res, Z(int64(a.Count)),
+			actItems = append(actItems, fmt.Sprintf("(mkAct %s %s %s %s %s %s %s %s)", NList(a.Labels), List(br), NList(ord), List(a.midCoq), res, Z(int64(a.Count)),
 				List(cs), indexCoq(a.Index)))
 
 			if a.Result != "ok" {
